@@ -350,6 +350,89 @@ static void store_tests(std::mt19937_64& rng, bool thorough)
   }
 }
 
+// ---------------------------------------------------------------- whole arrays (1-D and multi-dimensional)
+template<typename T, size_t R, size_t C>
+static void array_tests(std::mt19937_64& rng)
+{
+  const long gs = GI<T>::size;
+  using G = typename GI<T>::G;
+  const long n = (long)(R * C);
+  int gb = gs * 8;
+  W glo = GI<T>::sgn ? -((W)1 << (gb - 1)) : 0, ghi = GI<T>::sgn ? ((W)1 << (gb - 1)) - 1 : ((W)1 << gb) - 1;
+  for (long addr : { 8L, 2048L + 1, SIZE - n * gs }) {
+    std::vector<W> vals;
+    for (long i = 0; i < n; i++) {
+      W base = (i % 3 == 0) ? glo + i : (i % 3 == 1) ? ghi - i : (W)(3 + 7 * i);
+      vals.push_back(base);
+    }
+    // (1) whole-array store of a tainted T[R][C]
+    {
+      fill_pattern(3, rng);
+      tainted<T[R][C], Sbx> ta;
+      for (size_t r = 0; r < R; r++) {
+        for (size_t c = 0; c < C; c++) {
+          ta[r][c] = (T)vals[r * C + c];
+        }
+      }
+      auto before = snapshot();
+      auto pa = sb->UNSAFE_accept_pointer(reinterpret_cast<T(*)[R][C]>(BASE + addr));
+      const char* res = guarded([&] { *pa = ta; });
+      tr::Ev e("astore");
+      e.str("ty", TN<T>::v).str("shape", std::to_string(R) + "x" + std::to_string(C)).num("size", gs).num("n", n);
+      e.boolean("signed", GI<T>::sgn).num("addr", addr).str("out", res);
+      std::string vs = "[";
+      for (long i = 0; i < n; i++) {
+        tr::Ev t("x");
+        t.s = "";
+        t.first = true;
+        t.wide("v", vals[i]);
+        vs += std::string(i ? "," : "") + t.s.substr(4);
+      }
+      e.raw("vals", vs + "]").raw("changed", changed_list(before)).bytes("bytes", MEM + addr, n * gs);
+      out.put(e);
+    }
+    // (2) whole-array load of what is there: to a tainted copy, and unwrapped
+    for (int path = 0; path < 2; path++) {
+      for (long i = 0; i < n; i++) {
+        G gv = (G)vals[(i + 1) % n];
+        std::memcpy(MEM + addr + i * gs, &gv, gs);
+      }
+      std::vector<W> got(n, 0);
+      auto pa = sb->UNSAFE_accept_pointer(reinterpret_cast<T(*)[R][C]>(BASE + addr));
+      const char* res = guarded([&] {
+        if (path == 0) {
+          tainted<T[R][C], Sbx> t = *pa;
+          for (size_t r = 0; r < R; r++) {
+            for (size_t c = 0; c < C; c++) {
+              got[r * C + c] = bits_of(t[r][c].UNSAFE_unverified());
+            }
+          }
+        } else {
+          auto raw = (*pa).UNSAFE_unverified();
+          for (size_t r = 0; r < R; r++) {
+            for (size_t c = 0; c < C; c++) {
+              got[r * C + c] = bits_of((T)raw[r][c]);
+            }
+          }
+        }
+      });
+      tr::Ev e("aload");
+      e.str("ty", TN<T>::v).str("shape", std::to_string(R) + "x" + std::to_string(C)).num("size", gs).num("n", n);
+      e.str("path", path == 0 ? "to_tainted" : "unverified").boolean("signed", GI<T>::sgn).num("addr", addr).str("out", res);
+      std::string gsx = "[";
+      for (long i = 0; i < n; i++) {
+        tr::Ev t("x");
+        t.s = "";
+        t.first = true;
+        t.wide("v", got[i]);
+        gsx += std::string(i ? "," : "") + t.s.substr(4);
+      }
+      e.raw("got", gsx + "]").bytes("bytes", MEM + addr, n * gs);
+      out.put(e);
+    }
+  }
+}
+
 // ---------------------------------------------------------------- loads
 template<typename T>
 static void load_tests(std::mt19937_64& rng, bool thorough)
@@ -1134,6 +1217,13 @@ int main(int argc, char** argv)
 #define ST(T) store_tests<T>(rng, thorough);
     ST(bool) ST(char) ST(signed char) ST(unsigned char) ST(short) ST(unsigned short) ST(int) ST(unsigned) ST(long)
       ST(unsigned long) ST(long long) ST(unsigned long long) ST(float) ST(double) ST(char16_t) ST(char32_t) ST(testEnum)
+    // whole arrays, one- and multi-dimensional; element types that keep or change their width
+    array_tests<int, 1, 6>(rng);
+    array_tests<int, 2, 3>(rng);
+    array_tests<char, 3, 4>(rng);
+    array_tests<long, 2, 3>(rng);
+    array_tests<long long, 2, 2>(rng);
+    array_tests<unsigned short, 4, 2>(rng);
   } else if (mode == "load") {
 #define LD(T) load_tests<T>(rng, thorough);
     LD(const int) LD(const long) LD(const short) LD(const unsigned long) LD(const long long)
